@@ -8,8 +8,8 @@
                                                      the loop goes on after a handled exception)
     `while source_path: … source_path.pop(-1)`      `nmayWalk`   (the path itself, then its ancestors INSIDE the current scope;
                                                      `get_state(source_path)` is evaluated for every one of them, outside the `try`)
-    `_can_trigger_nested(model, trigger, path)`     `ncanTriggerNested`  (`if trigger in self.events:` walk; `if path: with
-                                                     self(path.pop(0)): return <recursion>`; `return False`)
+    `_can_trigger_nested(model, trigger, path)`     `nmayHere` (`if trigger in self.events:` the walk) / `ncanTriggerNested`
+                                                     (`if path: with self(path.pop(0)): return <recursion>`; `return False`)
     `any(… for state_path in ordered_states)`       `nmayAny`
     `_can_trigger(model, trigger)`                  `ncanTrigger` (`build_state_tree(model.state)`, `resolve_order`, `with self():` =
                                                      the machine's own scope, whatever scope a running callback has entered)
@@ -75,18 +75,21 @@ def nmayWalk (sub : NSub) (sc : Script) (cfg : NCfg) (scope : Scope) (x : Ctx) (
       (nmayLoop sub sc cfg scope x (nmayCands ts src) s).bind fun b s' =>
         if b then .ok true s' else nmayWalk sub sc cfg scope x ts path n s'
 
-/-- `HierarchicalMachine._can_trigger_nested(model, trigger, path)` called while the machine is in `scope` -/
+/-- `if trigger in self.events: source_path = copy.copy(path); while source_path: …` in the scope the machine is in -/
+def nmayHere (sub : NSub) (sc : Script) (cfg : NCfg) (x : Ctx) (ev : Nat) (scope : Scope) (path : SPath) (s : NSt) : NR Bool :=
+  match alookup ev scope.events with
+  | some ts => nmayWalk sub sc cfg scope x ts path path.length s
+  | none => .ok false s
+
+/-- `HierarchicalMachine._can_trigger_nested(model, trigger, path)` called while the machine is in `scope`:
+the walk in this scope; then `if path: with self(path.pop(0)): return self._can_trigger_nested(model, trigger, path, …)`;
+`return False` -/
 def ncanTriggerNested (sub : NSub) (sc : Script) (cfg : NCfg) (x : Ctx) (ev : Nat) : Scope → SPath → NSt → NR Bool
-  | scope, path, s =>
-    -- if trigger in self.events:
-    (match alookup ev scope.events with
-      | some ts => nmayWalk sub sc cfg scope x ts path path.length s
-      | none => (.ok false s : NR Bool)).bind fun b s1 =>
-    if b then .ok true s1 else
-    -- if path: with self(path.pop(0)): return self._can_trigger_nested(model, trigger, path, …)
-    match path with
-    | [] => .ok false s1
-    | k :: rest =>
+  | scope, [], s =>
+    (nmayHere sub sc cfg x ev scope [] s).bind fun b s1 => if b then .ok true s1 else .ok false s1
+  | scope, k :: rest, s =>
+    (nmayHere sub sc cfg x ev scope (k :: rest) s).bind fun b s1 =>
+      if b then .ok true s1 else
       match scope.enter k with
       | none => .err .other s1                          -- `self.states[state_name]`: KeyError
       | some inner => ncanTriggerNested sub sc cfg x ev inner rest s1
